@@ -14,11 +14,14 @@ set_option linter.unusedSimpArgs false
 namespace PyPhysim.LinAlg.GmdInv
 open PyPhysim.Proto PyPhysim.LinAlg Matrix
 
-theorem sweep_ok (m n p : Nat) (A : Matrix (Fin m) (Fin n) ℝ) (S : Nat → ℝ) (sb : ℝ) (st0 : GmdState ℝ)
-    (sh0 : Shape m n p st0) (inv0 : Inv m n p A S sb 0 (absSt st0)) (hpm : p ≤ m) (hpn : p ≤ n)
+variable {K : Type} [Field K] [StarRing K] [RSqrt K] [LE K] [DecidableLE K]
+
+theorem sweep_ok {ι : ℝ →+* K} (hι : RealLike ι) (m n p : Nat) (A : Matrix (Fin m) (Fin n) K) (S : Nat → ℝ)
+    (sb : ℝ) (st0 : GmdState K)
+    (sh0 : Shape m n p st0) (inv0 : Inv ι m n p A S sb 0 (absSt st0)) (hpm : p ≤ m) (hpn : p ≤ n)
     (hsb : 0 < sb) (Spos : ∀ r, r < p → 0 < S r) (Smono : ∀ r r', r ≤ r' → r' < p → S r' ≤ S r) :
-    ∀ j, j ≤ p - 1 → ∃ st, (List.range j).foldlM (fun st k => gmdStep sb k st) st0 = .ok st ∧
-      Shape m n p st ∧ Inv m n p A S sb j (absSt st) := by
+    ∀ j, j ≤ p - 1 → ∃ st, (List.range j).foldlM (fun st k => gmdStep (ι sb) k st) st0 = .ok st ∧
+      Shape m n p st ∧ Inv ι m n p A S sb j (absSt st) := by
   intro j
   induction j with
   | zero => intro _; exact ⟨st0, rfl, sh0, inv0⟩
@@ -27,25 +30,25 @@ theorem sweep_ok (m n p : Nat) (A : Matrix (Fin m) (Fin n) ℝ) (S : Nat → ℝ
     obtain ⟨st, hst, sh, inv⟩ := ih (by omega)
     have hk : j + 1 < p := by omega
     obtain ⟨b1, b2, b3, b4, b5⟩ := inv.bounds hk
-    obtain ⟨st', hst', sh', e⟩ := gmdStep_refines sb m n p j st sh hpm hpn hk b1 b2 b3 b4 b5
+    obtain ⟨st', hst', sh', e⟩ := gmdStep_refines (ι sb) m n p j st sh hpm hpn hk b1 b2 b3 b4 b5
     refine ⟨st', ?_, sh', ?_⟩
     · rw [List.range_succ, List.foldlM_append, hst]
       simp only [ok_bind, List.foldlM_cons, List.foldlM_nil, hst']
       rfl
     · rw [e]
-      exact inv.step hpm hpn hk hsb Spos Smono
+      exact inv.step hι hpm hpn hk hsb Spos Smono
 
 /-- the last loop of `gmd`: `R[0:p-1, p-1] = z` -/
-theorem lastCol_ok (m n q : Nat) (R : Array (Array ℝ)) (z : Array ℝ)
+theorem lastCol_ok (m n q : Nat) (R : Array (Array K)) (z : Array K)
     (hR : R.size = m) (hrow : ∀ i, i < m → (cget R i).size = n) (hqz : q ≤ z.size) (hqm : q ≤ m)
     (hqn : q < n) :
-    ∃ R', (List.range q).foldlM (fun (R : Array (Array ℝ)) t => do
+    ∃ R', (List.range q).foldlM (fun (R : Array (Array K)) t => do
         let zt ← idx z t
         let row ← idx R t
         let row ← upd row q zt
         upd R t row) R = (.ok R' : Except PyErr _) ∧ R'.size = m ∧ (∀ i, i < m → (cget R' i).size = n) ∧
       (∀ a b, entryRows R' a b = if b = q ∧ a < q then vget z a else entryRows R a b) := by
-  suffices h : ∀ t0, t0 ≤ q → ∃ R', (List.range t0).foldlM (fun (R : Array (Array ℝ)) t => do
+  suffices h : ∀ t0, t0 ≤ q → ∃ R', (List.range t0).foldlM (fun (R : Array (Array K)) t => do
         let zt ← idx z t
         let row ← idx R t
         let row ← upd row q zt
@@ -85,19 +88,19 @@ theorem lastCol_ok (m n q : Nat) (R : Array (Array ℝ)) (z : Array ℝ)
         · simp [hb]
 
 /-- the part of `gmd` after the sweep, as a function of the final state -/
-noncomputable def finishM (p : Nat) (sb : ℝ) (st : GmdState ℝ) :
-    Except PyErr (Array (Array ℝ) × Array (Array ℝ) × Array (Array ℝ) × ℝ) := do
+def finishM (p : Nat) (sb : K) (st : GmdState K) :
+    Except PyErr (Array (Array K) × Array (Array K) × Array (Array K) × K) := do
   let row ← idx st.R (p - 1)
   let row ← upd row (p - 1) sb
   let R ← upd st.R (p - 1) row
-  let R ← (List.range (p - 1)).foldlM (fun (R : Array (Array ℝ)) t => do
+  let R ← (List.range (p - 1)).foldlM (fun (R : Array (Array K)) t => do
       let zt ← idx st.z t
       let row ← idx R t
       let row ← upd row (p - 1) zt
       upd R t row) R
   pure (st.Q, R, st.P, st.margin)
 
-theorem finish_ok (m n p : Nat) (sb : ℝ) (st : GmdState ℝ) (sh : Shape m n p st) (hp : 1 ≤ p)
+theorem finish_ok (m n p : Nat) (sb : K) (st : GmdState K) (sh : Shape m n p st) (hp : 1 ≤ p)
     (hpm : p ≤ m) (hpn : p ≤ n) :
     ∃ R', finishM p sb st = .ok (st.Q, R', st.P, st.margin) ∧
       (∀ a b, entryRows R' a b = if b = p - 1 ∧ a < p - 1 then vget st.z a
@@ -129,22 +132,24 @@ theorem finish_ok (m n p : Nat) (sb : ℝ) (st : GmdState ℝ) (sh : Shape m n p
 
 /-- the invariant after the last iteration gives the decomposition, column by column:
     `A · P[:, b] = Σ_a R[a, b] · Q[:, a]` with the final `R` upper triangular with diagonal `σ̄` -/
-theorem Inv.final {m n p : Nat} {A : Matrix (Fin m) (Fin n) ℝ} {S : Nat → ℝ} {sb : ℝ} {g : GA}
-    (h : Inv m n p A S sb (p - 1) g) (hp : 1 ≤ p) (hpm : p ≤ m) (hpn : p ≤ n) (Rf : Nat → Nat → ℝ)
+theorem Inv.final {ι : ℝ →+* K} {m n p : Nat} {A : Matrix (Fin m) (Fin n) K} {S : Nat → ℝ} {sb : ℝ}
+    {g : GA K}
+    (h : Inv ι m n p A S sb (p - 1) g) (hp : 1 ≤ p) (hpm : p ≤ m) (hpn : p ≤ n) (Rf : Nat → Nat → K)
     (hRf : ∀ a b, Rf a b = if b = p - 1 ∧ a < p - 1 then g.z a
-      else if a = p - 1 ∧ b = p - 1 then sb else g.R a b) :
+      else if a = p - 1 ∧ b = p - 1 then ι sb else g.R a b) :
     (∀ b, b < n → A *ᵥ colv n g.P b = ∑ a ∈ Finset.range m, Rf a b • colv m g.Q a) ∧
-    (∀ a b, b < a → Rf a b = 0) ∧ (∀ a, a < p → Rf a a = sb) := by
+    (∀ a b, b < a → Rf a b = 0) ∧ (∀ a, a < p → Rf a a = ι sb) := by
+  obtain ⟨dr, hd, bi⟩ := h.bi
   have hR0 : ∀ a b, ¬ ((a ≤ b ∧ b < p - 1) ∨ (a = p - 1 ∧ b = p - 1)) → g.R a b = 0 := by
     intro a b hn
     by_contra hne
     exact hn (h.mi.rT a b hne)
-  have hdk : g.d (p - 1) = sb := by
-    have h1 := h.bi.prod
-    have h2 := h.bi.cnt
+  have hdk : g.d (p - 1) = ι sb := by
+    have h1 := bi.prod
+    have h2 := bi.cnt
     have e : g.small + 1 = g.large := by omega
     rw [e, Finset.Ico_self, Finset.prod_empty, mul_one] at h1
-    rw [h1, show p - (p - 1) = 1 by omega, pow_one]
+    rw [hd, h1, show p - (p - 1) = 1 by omega, pow_one]
   refine ⟨?_, ?_, ?_⟩
   · intro b hb
     by_cases hb1 : b < p - 1
